@@ -100,7 +100,10 @@ func receivedBytes(c *core.Ctx, fn *ssa.Function, v ssa.Value, at ssa.Instructio
 		n := core.CallName(x)
 		if n == core.M("internal/pool.GetBuf") || n == "builtin.make" {
 			// the whole self-allocated buffer: an io.ReadFull into it must have succeeded
-			for _, call := range core.CallsNamed(fn, "io.ReadFull") {
+			for _, call := range core.CallsNamed(fn, "io.ReadFull", "io.ReadAtLeast") {
+				if cc, isCall := call.(*ssa.Call); !isCall || !isFullRead(cc) {
+					continue
+				}
 				if sameBuffer(call.Common().Args[1], x) && core.InstrDominates(call, at) {
 					if ev := extractOf(call.(*ssa.Call), 1); ev != nil && core.NilAt(ev, at.Block()) == core.IsNil {
 						return true, "whole buffer after a successful io.ReadFull"
